@@ -467,7 +467,7 @@ func (w *World) FuncsWithContracts() []*ssa.Function {
 		if fn.Origin() != nil {
 			o = fn.Origin()
 		}
-		if w.FuncC[o] == nil {
+		if w.FuncC[o] == nil || w.FuncC[o].Kind == "extern" {
 			continue
 		}
 		if fn.TypeParams().Len() > 0 && len(fn.TypeArgs()) == 0 {
